@@ -311,7 +311,26 @@ fn boundary_mutate(rng: &mut Rng, chain: &Chain, proto: P, data: &P2pBytes) -> O
                 packed::BlockFilterMessageUnionReader::BlockFilters(r) => {
                     let e = r.to_entity();
                     let start: u64 = e.start_number().unpack();
-                    match rng.below(5) {
+                    match rng.below(7) {
+                        5 | 6 => {
+                            // authentic filters, but the (unverified) block hashes repeat: the same hash at two or at all positions, so
+                            // that a matched-blocks record, a GetBlocksProof request and the download bookkeeping hold one hash twice
+                            let mut hs: Vec<Byte32> = e.block_hashes().into_iter().collect();
+                            if hs.len() < 2 {
+                                return None;
+                            }
+                            let i = rng.pick_idx(hs.len());
+                            let h = hs[i].clone();
+                            if rng.chance(1, 2) {
+                                for x in hs.iter_mut() {
+                                    *x = h.clone();
+                                }
+                            } else {
+                                let j = (i + 1 + rng.pick_idx(hs.len() - 1)) % hs.len();
+                                hs[j] = h;
+                            }
+                            Some((server::filter_msg(e.as_builder().block_hashes(hs.pack()).build()), "BlockFilters|hash-repeated".into()))
+                        }
                         0 => Some((server::filter_msg(e.as_builder().start_number(b64(rng, start).pack()).build()), "BlockFilters|start-extreme".into())),
                         1 => {
                             let mut fs: Vec<packed::Bytes> = e.filters().into_iter().collect();
